@@ -297,9 +297,10 @@ impl UsesLifetimes for syn::TypeParamBound {
         match *self {
             syn::TypeParamBound::Trait(ref v) => v.uses_lifetimes(options, lifetimes),
             syn::TypeParamBound::Lifetime(ref v) => v.uses_lifetimes(options, lifetimes),
-            // non-exhaustive enum
-            // TODO: replace panic with failible function
-            _ => panic!("Unknown syn::TypeParamBound: {:?}", self),
+            // non-exhaustive enum: bounds this analysis does not know (`use<..>` precise
+            // capturing, verbatim tokens) can appear in types that parse, such as `impl Trait`
+            // in a field; they are taken to use nothing rather than aborting the derive.
+            _ => Default::default(),
         }
     }
 }
